@@ -236,6 +236,14 @@ def _ctxsub_filter(self, context):
     return out
 
 
+def _ctxwrap_filter(self, context):
+    # deliberately NOT idempotent: applying it twice gives a different context
+    out = {'wrapped': {k: v for k, v in context.items() if k != 'nonce'}}
+    if 'nonce' in context:
+        out['nonce'] = context['nonce']
+    return out
+
+
 N1 = _node_type('N1', max_parallel=1)
 N2 = _node_type('N2', max_parallel=2)
 N3 = _node_type('N3', max_parallel=3)
@@ -249,8 +257,9 @@ P2 = _node_type('P2', cache=P2Cache())
 T = _node_type('T')
 CtxSub = _node_type('CtxSub', extra_ns={'filter_context': _ctxsub_filter})
 CtxSub2 = _node_type('CtxSub2', max_parallel=2, extra_ns={'filter_context': _ctxsub_filter})
+CtxWrap = _node_type('CtxWrap', extra_ns={'filter_context': _ctxwrap_filter})
 
-NODE_TYPES = {c.__name__: c for c in (N1, N2, N3, NN, N, NX, Z, Z1, J, P2, T, CtxSub, CtxSub2)}
+NODE_TYPES = {c.__name__: c for c in (N1, N2, N3, NN, N, NX, Z, Z1, J, P2, T, CtxSub, CtxSub2, CtxWrap)}
 CACHEABLE = {k for k, c in NODE_TYPES.items() if not isinstance(c._lt.cache, labtech.cache.NullCache)}
 MAX_PARALLEL = {k: c._lt.max_parallel for k, c in NODE_TYPES.items()}
 
@@ -380,7 +389,8 @@ def _result_type(tname: str, **kw):
 
 RV = _result_type('RV')
 RJ = _result_type('RJ', cache=JCache())
-RESULT_TYPES = {'RV': RV, 'RJ': RJ}
+RZ = _result_type('RZ', cache=None)
+RESULT_TYPES = {'RV': RV, 'RJ': RJ, 'RZ': RZ}
 
 
 # ---------------------------------------------------------------------------------------------------
@@ -392,22 +402,30 @@ def _chat_run(self):
     gate_wait(self.name)
     for d in walk_tasks(self.deps):
         d.result
-    import logging as _logging
+    def tok(t):
+        # tokens are stored in pieces and only assembled here, so that they never occur in repr(task) (which labtech logs)
+        return ':'.join(str(x) for x in t) if isinstance(t, (tuple, list)) else t
     for act in self.script:
         kind = act[0]
         if kind == 'log':
-            getattr(labtech.logger, act[1])(act[2])
+            getattr(labtech.logger, act[1])(tok(act[2]))
         elif kind == 'print':
-            print(act[1], flush=bool(act[2]))
+            print(tok(act[1]), flush=bool(act[2]))
         elif kind == 'err':
-            sys.stderr.write(act[1])
+            sys.stderr.write(tok(act[1]))
         elif kind == 'errln':
-            print(act[1], file=sys.stderr)
+            print(tok(act[1]), file=sys.stderr)
         elif kind == 'flush':
             sys.stdout.flush()
             sys.stderr.flush()
         elif kind == 'ws':
             print('   ')
+        elif kind == 'burst':
+            for i in range(act[1]):
+                labtech.logger.info(f'{tok(act[2])}:{i}:')
+        elif kind == 'raise':
+            trace(f'E {self.name} Chat')
+            raise CustomErr(f'chat task {self.name} fails after emitting')
         else:
             raise RuntimeError(f'harness: unknown chat action {act!r}')
     trace(f'E {self.name} Chat')
